@@ -259,6 +259,17 @@ def cases(ctx):
         if rng.random() < 0.2:
             ol.insert(rng.randrange(len(ol) + 1), [rng.choice([12, 65001, 18]), b"\x01\x61\x00"])
         yield "parse:option-checks", [2, opt_wire(ol, rng.choice([b"", b"", b"", b"\x00", b"\x00\x03\x00"])), None, 16]
+    # a limit that is EXACTLY the size of the message (as max_size, as request payload): it still renders whole
+    k = 0
+    for kind, am, origin in msgs:
+        w = g.run_render(am, origin, 0, 0, 0, 0)
+        if isinstance(w, Err) or len(w) < 512 or kind == "big":
+            continue
+        k += 1
+        if k > ctx.n(8, 40):
+            break
+        yield "render:exact-limit", [1, am, origin, len(w), 0, 0, 0]
+        yield "render:exact-limit", [1, am, origin, 0, len(w), 0, 0]
 
 
 def builder_messages(rng):
